@@ -1,6 +1,7 @@
 package main
 
 import (
+	"encoding/binary"
 	"fmt"
 	"strconv"
 	"strings"
@@ -268,6 +269,48 @@ func genC09(o *lib.Opts) {
 			sc = bigScript(len(stream) + 2)
 		}
 		emit("rsd", lib.Hex(stream), sc, strings.Join(ops, ","))
+	}
+	// 4b. ReaderSkipDecoder with values crossing 8 KiB / 16 KiB / 64 KiB, released and re-obtained from
+	//     the decoder pool in the same history (the pooled decoder keeps its buffer), then used again
+	bigs := []int{8100, 8192, 8200, 9000, 16380, 16384, 20000, 40000, 65530, 65536, 70000}
+	for i := 0; i < 60*scale/div+4; i++ {
+		var stream []byte
+		var ops []string
+		nv := r.Range(2, 5)
+		for k := 0; k < nv; k++ {
+			if k == 0 || r.Chance(1, 3) {
+				n := bigs[r.Intn(len(bigs))]
+				stream = binary.BigEndian.AppendUint32(stream, uint32(n))
+				stream = append(stream, r.Bytes(n)...)
+				ops = append(ops, "t11")
+			} else {
+				vs, ts := genValues(r, g, 1, 40)
+				stream = append(stream, vs...)
+				ops = append(ops, "t"+strconv.Itoa(ts[0]))
+			}
+			switch r.Intn(4) {
+			case 0, 1:
+				ops = append(ops, "R")
+			case 2:
+				ops = append(ops, "e")
+			}
+		}
+		emit("rsd", lib.Hex(stream), bigScript(len(stream)/1000+40), strings.Join(ops, ","))
+	}
+	// ... and small ones with release / re-get
+	for i := 0; i < 40*scale/div+2; i++ {
+		stream, types := genValues(r, g, r.Range(2, 6), 300)
+		for len(stream) > 2500 {
+			stream, types = genValues(r, g, r.Range(2, 4), 40)
+		}
+		var ops []string
+		for _, t := range types {
+			ops = append(ops, "t"+strconv.Itoa(t))
+			if r.Chance(1, 2) {
+				ops = append(ops, "R")
+			}
+		}
+		emit("rsd", lib.Hex(stream), rdScript(r, "d", len(stream)), strings.Join(ops, ","))
 	}
 	// 5. writer histories
 	wsz := []int{0, 1, 7, 100, 1000, 4000, 4096, 4097, 5000, 9000, 20000}
